@@ -498,9 +498,11 @@ func (p *Process) onProcessEnd(state string) {
 	}
 	p.mtxStopFn.Unlock()
 	p.stopProbes()
-	if p.readyProber != nil {
-		p.readyCancelFn()
-	}
+	// release every latch a dependent may be waiting on: the process will not start, become ready
+	// or print its ready line any more
+	p.readyCancelFn()
+	p.readyLogCancelFn(fmt.Errorf("process %s ended", p.getName()))
+	p.runCancelFn()
 	p.setState(state)
 	p.updateProcState()
 
